@@ -59,6 +59,8 @@ def parser(literal_string, simple_ident, all_columns=None, sqlserver=False):
         with whitespaces.NO_WHITESPACE:
             identifier = ~RESERVED + ident
         function_name = ~(UNION | FROM | WHERE | SELECT) + ident
+        # A BARE WORD USED AS A VALUE IS NOT A RESERVED WORD (PIVOT AND UNPIVOT ARE ALSO COLUMN NAMES)
+        column_name = ~MatchFirst([k for k in RESERVED.exprs if k is not PIVOT and k is not UNPIVOT]) + ident
 
         # EXPRESSIONS
         expression = Forward()
@@ -372,7 +374,7 @@ def parser(literal_string, simple_ident, all_columns=None, sqlserver=False):
             | real_num
             | int_num
             | call_function
-            | Combine(function_name + Optional(".*"))
+            | Combine(column_name + Optional(".*"))
         )
 
         window_clause, over_clause = window(expression, identifier, sort_column)
